@@ -58,4 +58,29 @@ def run (j : Json) : Except String Json := do
     s := r.1
   pure (Json.mkObj [("results", Json.arr res)])
 
+def cfgOfJson (j : Json) : Except String (Config Float) := do
+  pure { speed := ← floatOfBits (← field j "speed"),
+         loop := ← loopOfJson (← field j "loop"),
+         tol := ← floatOfBits (← field j "tol") }
+
+/-- fleets: `members` [{loop, speed, tol}…], ops [who, op] - the observation after each call is the one of
+    the member that was called (the others cannot change: `C16_fleet_others_untouched`) -/
+def runFleet (j : Json) : Except String Json := do
+  let cfgs ← (← (← field j "members").getArr?).toList.mapM cfgOfJson
+  let mut f : List (Member Float) := Mission.fleetInit cfgs
+  let mut res : Array Json := #[]
+  for o in (← (← field j "ops").getArr?) do
+    let a ← o.getArr?
+    let who ← a[0]!.getNat?
+    let op ← opOfJson a[1]!
+    match f[who]? with
+    | none => throw s!"no member {who}"
+    | some before =>
+      let r := Mission.applyAt f who op
+      match r.1[who]? with
+      | none => throw s!"no member {who}"
+      | some after => res := res.push (obs before.st after.st r.2)
+      f := r.1
+  pure (Json.mkObj [("results", Json.arr res)])
+
 end MissionDriver
